@@ -124,7 +124,8 @@ PROP = dict(
         "witness theorems (getTransactions_orig_panics, firstRoot_orig_panics, tuple_orig_nil_panics, "
         "vmCellSlice_zero_panics). "
         "(TL-B, modelled customs; TlbRead.lean follows the repaired readers: tlb_prims_negative_width_is_error) "
-        "hashmap_total (the one live panic: the label reader's width), snake_steps (+ snake_orig_quadratic: the decoder as "
+        "hashmap_total (the live panic: boc.NewCellWithBits(key) beyond 1023 bits, excluded by keySize <= 1023 and the "
+        "capacity of the key prefix), snake_steps (+ snake_orig_quadratic: the decoder as "
         "found copies b*d(d+1)/2 bits on a chain); tlb_custom_alloc: the repaired VM stack list decoder allocates <= 2 "
         "values per cell, BinTree <= 1 leaf slot per cell, SnakeData copies <= the data it returns; the code as found is "
         "quadratic (vmstack_orig_quadratic, bintree_orig_quadratic: d(d+1)/2 copies on a chain / comb of depth d, both "
